@@ -45,10 +45,15 @@ PROP = dict(
         "because entries() lists the persisted value first and TrieBuilder::insert replaces in place; snapshot_order_matters shows the "
         "swapped order would write the stale value). durable_lookup_linked: after close under any schedule the file is a well-formed trie "
         "holding exactly MapSpec's map of the calls made, and a TrieBuf opened on it answers lookup / entries / prefix lookup as that map "
-        "(C09's lookup_agrees/entries_agrees/fuzzy_agrees on a settled state, no finding class). REMAINING about files: a complete file "
-        "is the leaves written (Trie.build es = insert all, write, open in C09's model); byte layout and reading back is property C11 "
-        "(C11.read_write / lookup_correct), not yet bridged to C09's Trie.build (C09's leafCmp also still has the pre-fix comparator "
-        "for leaves mixing single characters and phrases; only the order inside a leaf is affected, the linked theorems are order-free)",
+        "(C09's lookup_agrees/entries_agrees/fuzzy_agrees on a settled state, no finding class). FILES ARE BYTES NOW: durable_lookup_bytes_linked "
+        "(Proofs/DictLinkBytes.lean + C09.file_layer_is_C11): along every run every complete file (path, temp, writer output / re-opened "
+        "result, snapshot in memory) is Trie.build es with es valid for the Rust types and within the size predicate (Tracked, tracked_run), "
+        "and for such es C11's byte-level write / Trie::new / lookup_all_phrases / lookup_first_n_phrases / entries denote exactly that leaf "
+        "list; conclusion: after close under any schedule the BYTES at the path exist, open with the metadata written, the real reader "
+        "answers every exact lookup as MapSpec's map of the calls (first n = prefix), entries() enumerates exactly that map, and a TrieBuf "
+        "opened on the file reads through that reader (prefix lookups too). Explicit extra hypotheses (C11's): call arguments of the Rust "
+        "types (CActValid), initial file written from valid entries, every snapshot of the history within the format limits "
+        "(SnapshotsOk ... FitsInfo = C11's Builder.Fits; a write that exceeds them returns Err, which the protocol model does not follow)",
         "the model is parametric in two source variants and the theorems say which they need: Drop joins the writer first "
         "(F12 repair, fix commit in the repository; durable_full needs it, durable_refuted is the code as found) and "
         "add/update revive a tombstoned key (C09's F09 repair; only live_tracks/durable_spec need it); the harness probes "
@@ -97,8 +102,11 @@ MANIFEST = dict(
          "TrieBuf model and proves a forward simulation (live_is_abs_linked, changes_refine_linked, snapshot_is_entries_linked = C09's "
          "build_abs, valid also in class UpdatePersisted), giving durable_lookup_linked in C09's terms (file after close = MapSpec's map of "
          "the calls; the reopened TrieBuf answers as that map). The linked theorems use Classical.choice (to pick an abstract content "
-         "representing the initial file). STILL TRUSTED about contents: a complete file read back yields the leaves written (C11's subject; "
-         "stated at the level of C09's file abstraction `List Leaf`, not bridged to C11's byte-level read_write). Not covered: I/O errors in the writer (dirty is already cleared, the changes are not "
+         "representing the initial file). NO LONGER TRUSTED about contents: 'a complete file read back yields the leaves written' - "
+         "durable_lookup_bytes_linked states the end-to-end result for the file as bytes read by C11's model of Trie::new / lookup / entries "
+         "(C09.file_layer_is_C11 + Proofs/DictLinkBytes.lean), under the explicit hypotheses CActValid (arguments of the Rust types) and "
+         "SnapshotsOk/FitsInfo (every snapshot within C11's format limits). STILL TRUSTED: the control skeleton of the protocol (schedule-exact "
+         "correspondence), and that a snapshot exceeding the format limits (write returns Err) is not modelled. Not covered: I/O errors in the writer (dirty is already cleared, the changes are not "
          "retried at close - by reading), power loss (no directory fsync; WAL synchronous=NORMAL), concurrent processes, the "
          "in-memory dictionary, Editor internals other than the dictionary calls it issues.",
     technique="Lean 4 proof (inductive invariant + history predicate over a step model; all schedules, crash points and process "
